@@ -22,6 +22,9 @@
 #include <QTcpServer>
 #include <QTcpSocket>
 
+#include <linux/sockios.h>
+#include <sys/ioctl.h>
+
 #include <memory>
 #include <set>
 #include <sstream>
@@ -270,15 +273,37 @@ static QByteArray opXml(const QStringList &w)
 }
 
 // ---------------------------------------------------------------------------------------------- fixture
+// Quiescence: spin the event loop until nothing is in flight any more.  "In flight" is read off the sockets themselves
+// (all loopback TCP sockets of this process: ours and the server's): bytes Qt has not written yet, bytes the kernel has
+// not delivered/acknowledged yet (SIOCOUTQ), bytes delivered but not yet read by the application (FIONREAD).
+static QList<QPointer<QAbstractSocket>> &allSockets() { static QList<QPointer<QAbstractSocket>> l; return l; }
+
+static bool inFlight()
+{
+    for (auto &p : allSockets()) {
+        if (!p || p->state() == QAbstractSocket::UnconnectedState) continue;
+        if (p->bytesToWrite() > 0) return true;
+        const int fd = int(p->socketDescriptor());
+        if (fd < 0) continue;
+        int n = 0;
+        if (ioctl(fd, FIONREAD, &n) == 0 && n > 0) return true;
+        n = 0;
+        if (ioctl(fd, SIOCOUTQ, &n) == 0 && n > 0) return true;
+    }
+    return false;
+}
+
 static void settle()
 {
+    QElapsedTimer t; t.start();
     int idle = 0;
-    for (int i = 0; i < 400 && idle < 4; i++) {
+    while (idle < 4 && t.elapsed() < 500) {
         g_activity = false;
         QCoreApplication::processEvents(QEventLoop::AllEvents);
         QCoreApplication::sendPostedEvents(nullptr, QEvent::DeferredDelete);
-        if (g_activity) idle = 0; else idle++;
+        if (g_activity || inFlight()) idle = 0; else idle++;
     }
+    if (idle < 4) vh::stat("settle_timeouts");
 }
 
 struct Fixture {
@@ -310,6 +335,7 @@ struct Fixture {
         attacker.reset(); victim.reset();
         server.reset();
         settle();
+        allSockets().clear();
     }
     std::unique_ptr<Peer> connectPeer()
     {
@@ -317,9 +343,13 @@ struct Fixture {
         p->sock.connectToHost(QHostAddress::LocalHost, port);
         if (!p->sock.waitForConnected(2000)) return nullptr;
         p->sock.setSocketOption(QAbstractSocket::LowDelayOption, 1);
+        allSockets() << &p->sock;
         settle();
         // transport only: no Nagle delay on the server side of the loopback connection either
-        for (auto *s : server->findChildren<QSslSocket *>()) s->setSocketOption(QAbstractSocket::LowDelayOption, 1);
+        for (auto *s : server->findChildren<QSslSocket *>()) {
+            s->setSocketOption(QAbstractSocket::LowDelayOption, 1);
+            if (!allSockets().contains(s)) allSockets() << s;
+        }
         return p;
     }
     bool loginVictim()
